@@ -401,6 +401,7 @@ func (fr *Frame) callContract(fn *ssa.Function, c *Contract, args []*SVal, rt ty
 			rv = fr.pureResult(fn, args, rt)
 		} else {
 			rv = fr.freshVal("ret."+fn.Name(), rt)
+			fr.assumeAllocated(rv, x.heapGet(fr.cur, allocName, "Int"))
 		}
 		fr.setResult(res, rv)
 		bindResults(env, fn, rv)
@@ -675,7 +676,7 @@ func (fr *Frame) builtin(b *ssa.Builtin, cc *ssa.CallCommon, res ssa.Value) {
 		fr.storeRoot = cc.Args[0]
 		fr.mapDelete(args[0], args[1])
 		fr.storeRoot = nil
-	case "print", "println":
+	case "print", "println", "close":
 	case "ssa:wrapnilchk":
 		fr.oblige("safe:nil", "wrapnilchk", sNot(sEq(args[0].Term, "0")), "")
 		fr.setResult(res, args[0])
@@ -758,7 +759,15 @@ func (fr *Frame) appendSlice(s, t *SVal, rt types.Type) *SVal {
 			for j := 0; j < k; j++ {
 				frr = sStore(frr, sAdd(sLen, sInt(int64(j))), sSelect(srcRow, sAdd(tOff, sInt(int64(j)))))
 			}
-			newRow = sIte(fits, inpl, frr)
+			newRow = x.em.Def("append.row", rowS, sIte(fits, inpl, frr))
+			// consequences that hold in both cases, stated in the form in which loop
+			// invariants index the result (result offset + j): old elements are preserved
+			// and the appended ones follow them
+			x.em.Assert(fmt.Sprintf("(forall ((j Int)) (! (=> (and (<= 0 j) (< j %s)) (= (select %s (+ %s j)) (select %s (+ %s j)))) :pattern ((select %s (+ %s j)))))",
+				sLen, newRow, rOff, oldRow, sOff, newRow, rOff))
+			for j := 0; j < k; j++ {
+				x.em.Assert(sEq(sSelect(newRow, sAdd(rOff, sAdd(sLen, sInt(int64(j))))), sSelect(srcRow, sAdd(tOff, sInt(int64(j))))))
+			}
 		} else {
 			nr := x.em.Fresh("append.row", rowS)
 			// prefix preserved
